@@ -96,6 +96,7 @@ type TypeDesc struct {
 	Handler  string      `json:"handler"` // special | scalar | reflect
 	GetValue bool        `json:"getvalue"`
 	Fields   []FieldDesc `json:"fields"`
+	IsTypes  bool        `json:"is_types,omitempty"` // implements data.Types (a declared type)
 }
 
 func handlerSets() (map[reflect.Type]bool, map[reflect.Type]bool) {
@@ -114,7 +115,8 @@ func table() []TypeDesc {
 	var res []TypeDesc
 	for _, pt := range nodeTypes {
 		st := pt.Elem()
-		td := TypeDesc{Name: typeName(pt), Handler: "reflect", GetValue: pt.Implements(tGetValue)}
+		td := TypeDesc{Name: typeName(pt), Handler: "reflect", GetValue: pt.Implements(tGetValue),
+			IsTypes: pt.Implements(tTypes) || pt.Elem().Implements(tTypes)}
 		if sp[pt] {
 			td.Handler = "special"
 		} else if sc[pt] {
